@@ -87,6 +87,16 @@ func walGen(r *rand.Rand, thorough bool) walCase {
 	}
 	// replay through a reader factory with a small buffer in half of the cases: records larger than the read buffer
 	c.ReadBuf = pick(r, 0, 0, 0, 64, 128, 512, 4096)
+	if r.Intn(30) == 0 {
+		// many files: every append rotates; "any number of rotations" must also hold for a process with an
+		// ordinary descriptor limit (the replay runs under a simulated limit of 16 open files)
+		c.MaxFileSize = 40
+		c.DirectIO = false
+		c.Ops = nil
+		for i, n := 0, 22+r.Intn(10); i < n; i++ {
+			c.Ops = append(c.Ops, walOp{Kind: pick(r, "append", "sync"), Size: 50 + r.Intn(40)})
+		}
+	}
 	return c
 }
 
@@ -191,6 +201,11 @@ func walReplayDir(dir string, c walCase) ([][]byte, error) {
 	return got, err
 }
 
+func walFileCount(dir string) int {
+	es, _ := os.ReadDir(dir)
+	return len(es)
+}
+
 type walViolation struct {
 	sig, detail string
 }
@@ -214,6 +229,25 @@ func walCheck(c *Ctx, wc walCase, tape *simrt.Tape, count bool) []walViolation {
 			out = append(out, walViolation{"replay-after-close|error:" + normErr(err), "Replay after Close failed: " + err.Error()})
 		} else if d := seqDiff(got, run.appended, len(run.appended)); d != "" {
 			out = append(out, walViolation{"replay-after-close|content", "Replay after Close differs: " + d})
+		}
+		// the same replay in a process that may hold 16 files open at a time
+		if nfiles := walFileCount(dir); nfiles > 20 && len(out) == 0 {
+			lw := simrt.NewWorld(dir, simrt.NewTape(1))
+			lw.Record = false
+			lw.FDLimit = 16
+			got, err := walReplayDir(dir, wc)
+			maxOpen := lw.MaxHandles
+			simrt.Deactivate()
+			lw.ReleaseAll()
+			if count {
+				c.Count("probe:replay-under-descriptor-limit", 1)
+				c.CountMax("max:files-open-during-replay", maxOpen)
+			}
+			if err != nil {
+				out = append(out, walViolation{"replay-descriptor-limit|error:" + normErr(err), fmt.Sprintf("Replay of an intact log of %d files fails in a process limited to 16 open files (it had %d open): %v", nfiles, maxOpen, err)})
+			} else if d := seqDiff(got, run.appended, len(run.appended)); d != "" {
+				out = append(out, walViolation{"replay-descriptor-limit|content", "Replay under a descriptor limit differs: " + d})
+			}
 		}
 	}
 	// model fidelity
